@@ -685,7 +685,10 @@ def c07(ctx):
     r["constants"] = {"MaxLine": 6 if q else 8, "what": "in-place tokenisation refines Tokenize; write position never overtakes read position"}
     ctx.add_mc(r)
     maxlen = 5 if q else 7
-    reqs = [{"m": "tokens_enum", "alphabet": TOK_ALPHA, "maxlen": maxlen}]
+    reqs = [{"m": "tokens_enum", "alphabet": TOK_ALPHA, "maxlen": maxlen},
+            # quoting next to characters of every encoded length, and next to the odd ASCII characters a line may hold
+            {"m": "tokens_enum", "alphabet": [0x22, 0x5C, 0x1F600, 0x4E2D, 0x61, 0x20], "maxlen": 5 if q else 6},
+            {"m": "tokens_enum", "alphabet": [0x61, 0x20, 0x22, 0x7F, 0x09, 0x01], "maxlen": 4 if q else 6}]
     # round trip on the code: every list of <= 3 strings of <= 2 (3) characters, rendered
     strs = [[]]
     fr = [[]]
